@@ -148,6 +148,10 @@ def handle (req : Json) : Except String Json := do
     let o := spliceAll (outs.map cs) blocks
     let d := delayMoveAll (dels.map cs) (blocks.filter fun b => b.1 ∈ dels.map cs)
     pure (Json.mkObj [("ok", true), ("outputs", jstrs (o.map sc)), ("delay", jstrs (d.map sc))])
+  | "expand.delayargs" => do
+    let shape ← parseNats (← getObj req "shape")
+    pure (Json.mkObj [("ok", true),
+      ("positions", Json.arr ((delayArgPositions shape).map fun (p : Nat) => Json.num (JsonNumber.fromNat p)).toArray)])
   | "expand.residual" => do
     let declsJ ← getArr req "decls"
     let decls ← declsJ.toList.mapM fun d => do
